@@ -249,7 +249,9 @@ fn cmd_check(args: &[String]) {
         "fuzz": fuzz_summary(),
     });
     let ev = evidence_json(prop, o.tier, o.seed, &stats, corpus_n, wall, extra);
-    let evdir = vd.join("evidence");
+    // sensitivity experiments write their evidence elsewhere (OHV_EVIDENCE_DIR), so that the committed
+    // evidence files always come from runs on the unchanged tree
+    let evdir = std::env::var("OHV_EVIDENCE_DIR").map(PathBuf::from).unwrap_or_else(|_| vd.join("evidence"));
     let _ = std::fs::create_dir_all(&evdir);
     let evpath = evdir.join(format!("{}.json", prop.id));
     if let Err(e) = std::fs::write(&evpath, serde_json::to_string_pretty(&ev).unwrap()) {
